@@ -13,6 +13,10 @@ Protocol (`c10 kind=<k> …`; every value is a decimal integer or a comma separa
          and every filter coordinate k (C scan order, inner), the C-order flat index of the element
          the filter iterator reads (`ravelZ`, signed), or -1 for the border flag. `ok=1` iff every
          non-flag coordinate list is inside `shape`.
+  kind=region  a= f=
+      -> `idx= rep= pos=`; one axis of length a under a filter of length f: `idx` = index of the
+         offsets region used at coordinate p = 0..a-1 (`iterate_both`), `rep` = the `position[]` that
+         region's offsets were computed at, `pos` = `position[]` of the regions 0..min(a,f)-1.
   kind=fastbin ny= nx= dy= dx= erosion=<0|1> [clamp=<0|1>, default 1]
       -> `ok= n= term=`; all rows y in [0,ny) of `fast_binary_dilate_erode_2d` for ONE raw offset
          (dy,dx) = (y_B - Cy, x_B - Cx). `clamp=0` drops the clamp of dx to [-nx,nx] (the pre-repair code).
@@ -123,6 +127,35 @@ def filterOk (m : Mode) (shape fshape : List Nat) : Bool :=
   (filterReads m shape fshape).all fun
     | some q => inside shape q
     | none => true
+
+/-! ### B1, regions: the table holds one set of offsets per border REGION, computed at the region's
+representative `position[]`, and `retrieve` adds it to the pointer at the actual position. -/
+
+/-- `iterate_both` along one axis: moving from coordinate `p` to `p+1` advances the offsets pointer
+    iff `p < minbound (= orgn)` or `p >= maxbound (= ashape - fshape + orgn)`. The region index at `p`. -/
+def regionIndex (a f : Nat) : Nat → Nat
+  | 0 => 0
+  | p + 1 =>
+    regionIndex a f p +
+      (if (p : Int) < origin f ∨ (p : Int) ≥ (a : Int) - f + origin f then 1 else 0)
+
+/-- "move to the next array region" of `init_filter_offsets` along one axis (lines 131-138):
+    `if (position == orgn) { position += ashape - fshape + 1; if (position <= orgn) position = orgn + 1; } else position++;` -/
+def nextRegionPos (a f : Nat) (pos : Int) : Int :=
+  if pos = origin f then
+    let q := pos + ((a : Int) - f + 1)
+    if q ≤ origin f then origin f + 1 else q
+  else pos + 1
+
+/-- `position[ii]` of the `r`-th region along one axis -/
+def regionPos (a f : Nat) : Nat → Int
+  | 0 => 0
+  | r + 1 => nextRegionPos a f (regionPos a f r)
+
+/-- the representative position the table entry used at array position `p` was computed at -/
+def repPos : List Nat → List Nat → List Int → List Int
+  | a :: as, f :: fs, p :: ps => regionPos a f (regionIndex a f p.toNat) :: repPos as fs ps
+  | _, _, _ => []
 
 /-! ## B2 — `fast_binary_dilate_erode_2d` (`_morph.cpp`) -/
 
@@ -349,6 +382,10 @@ def handle (a : Args) : String :=
       let fshape := a.nats "fshape"
       let idx := filterIdx m shape fshape
       s!"idx={showInts idx} ok={b2s (filterOk m shape fshape)} n={idx.length}"
+  | "region" =>
+    let a' := a.nat "a"; let f := a.nat "f"
+    let idx := (List.range a').map (regionIndex a' f)
+    s!"idx={showNats idx} rep={showInts (idx.map (regionPos a' f))} pos={showInts ((List.range (min a' f)).map (regionPos a' f))}"
   | "fastbin" =>
     let ny := a.int "ny"; let nx := a.int "nx"
     let dx := if a.int "clamp" 1 = 0 then a.int "dx" else fbClampDx nx (a.int "dx")
